@@ -260,13 +260,19 @@ func c11r4(r *R) {
 		if st.Parent() == setup {
 			// every path where the h2 idle timeout is unset reaches a store
 			var zeroIf *ssa.If
+			zeroSide := 0
 			eachInstr(setup, func(i ssa.Instruction) {
-				if iff, ok := i.(*ssa.If); ok && c.Expr(iff.Cond) == "(0 == p0.HTTP2Server.IdleTimeout)" {
-					zeroIf = iff
+				if iff, ok := i.(*ssa.If); ok {
+					switch c.Expr(iff.Cond) {
+					case "(0 == p0.HTTP2Server.IdleTimeout)":
+						zeroIf, zeroSide = iff, 0
+					case "(0 != p0.HTTP2Server.IdleTimeout)":
+						zeroIf, zeroSide = iff, 1
+					}
 				}
 			})
 			if zeroIf != nil {
-				p := c.escapeFromBlock(setup, zeroIf.Block().Succs[0], func(i ssa.Instruction) bool {
+				p := c.escapeFromBlock(setup, zeroIf.Block().Succs[zeroSide], func(i ssa.Instruction) bool {
 					s, ok := i.(*ssa.Store)
 					return ok && c.Expr(s.Addr) == "p0.HTTP2Server.IdleTimeout"
 				}, isReturn)
